@@ -28,6 +28,7 @@
 -/
 import Gts.Lemmas.RepairRoundTrip
 import Gts.Lemmas.RepairKey
+import Gts.Bridge.CmdRepair
 namespace Gts.C12
 open Gts Loc
 
@@ -353,5 +354,54 @@ example : cutsOk 2 20 [5, 9, 14] ∧
   refine ⟨by simp [cutsOk], ?_⟩
   simp only [frags]
   exact (List.Perm.swap _ _ _).trans (List.Perm.cons _ ((List.Perm.cons _ (List.Perm.swap _ _ _)).trans (List.Perm.swap _ _ _)))
+
+/-! ### the CLI glue: `gts repair`
+
+`Gts.Gen.repairStep` is the scan-loop body of cmd/gts/repair.go, regenerated on every run (go2lean/cmdsteps.go):
+`ff := seq.Features(); ff = gts.Repair(ff); seq = gts.WithFeatures(seq, ff)`; `Gts/Bridge/CmdRepair.lean` proves it equal to
+`Cli.repairStep`. -/
+
+/-- **`gts repair`, the command as written**: the record is written with `Repair` of its WHOLE table — the explicit
+table `specRepair` — and its residues as they are, whenever no `nil` Location is written (`Table.noNil`: every table
+without empty `Joined{}` literals) -/
+theorem repair_cli_step (s : Seq) (h : Table.noNil s.feats = true) :
+    Gen.repairStep s = some [⟨specRepair s.feats, s.bytes⟩] :=
+  Bridge.repairStep_ok s _ (no_panic_ok s.feats h)
+
+/-- the step fails to hand a record to the writer exactly when `Repair` wrote a `nil` Location (never by a panic of
+`Repair` itself: `no_panic`) -/
+theorem repair_cli_step_none_iff (s : Seq) : Gen.repairStep s = none ↔ repair s.feats = .nilLoc := by
+  rw [Bridge.repairStep_eq]
+  have := no_panic s.feats
+  cases h : repair s.feats <;> simp_all [Cli.repairStep, Cli.repairTable]
+
+/-- **`gts repair | gts repair`** on plain tables of well-formed locations: the second run writes what the first
+wrote (`idempotent_partial` at the CLI step) -/
+theorem repair_cli_step_idempotent_partial (s r : Seq) (hp : Table.plain s.feats = true) (hw : Table.wfT s.feats = true)
+    (h : Gen.repairStep s = some [r]) : Gen.repairStep r = some [r] := by
+  rw [Bridge.repairStep_eq] at h
+  cases hr : repair s.feats with
+  | ok t =>
+    have hr' : r = ⟨t, s.bytes⟩ := by
+      simp [Cli.repairStep, Cli.repairTable, hr, Cli.withFeats] at h
+      exact h.symm
+    subst hr'
+    exact Bridge.repairStep_ok _ _ (idempotent_partial s.feats t hp hw hr)
+  | panic => simp [Cli.repairStep, Cli.repairTable, hr] at h
+  | nilLoc => simp [Cli.repairStep, Cli.repairTable, hr] at h
+
+/-- **`gts repair` leaves a record alone** when its table is plain and has no mergeable pair (`unchanged_partial`) -/
+theorem repair_cli_step_unchanged_partial (s : Seq) (hp : Table.plain s.feats = true)
+    (hm : Table.noMergeablePair s.feats = true) : Gen.repairStep s = some [s] :=
+  Bridge.repairStep_ok s _ (unchanged_partial s.feats hp hm)
+
+/-- non-vacuity: two abutting partial fragments are fused by the command -/
+example : Gen.repairStep ⟨[gene (ranged 0 3 false true), gene (ranged 3 6 true false)], [65, 67, 71, 84, 65, 67]⟩ =
+    some [⟨[gene (ranged 0 6 false false)], [65, 67, 71, 84, 65, 67]⟩] :=
+  Bridge.repairStep_ok _ _ (by rfl)
+
+example : Table.noNil [gene (ranged 0 3 false true), gene (ranged 3 6 true false)] = true ∧
+    Table.plain [gene (ranged 0 3 false true), gene (ranged 3 6 true false)] = true ∧
+    Table.wfT [gene (ranged 0 3 false true), gene (ranged 3 6 true false)] = true := by decide
 
 end Gts.C12
